@@ -409,7 +409,21 @@ func c14ephemeral(c *an.Ctx) {
 	if fn == nil || rr == nil || rp == nil {
 		return
 	}
-	for _, rc := range an.CallsTo(fn, rr) {
+	// every function of nsqlookupd that drops a whole registration on behalf of a connection (UNREGISTER on the pinned tree);
+	// the two admin delete endpoints remove registrations by design
+	var sites []ssa.CallInstruction
+	var owner = map[ssa.CallInstruction]*ssa.Function{}
+	for _, g := range c.P.PkgFuncs("nsqlookupd") {
+		if g.Name() == "doDeleteTopic" || g.Name() == "doDeleteChannel" {
+			continue
+		}
+		for _, rc := range an.CallsTo(g, rr) {
+			sites = append(sites, rc)
+			owner[rc] = g
+		}
+	}
+	for _, rc := range sites {
+		fn := owner[rc]
 		left0, eph := false, false
 		for _, f := range an.FactsAt(rc.Block()) {
 			if cmp, ok := f.AsCmp(); ok && cmp.Op == token.EQL {
@@ -427,7 +441,7 @@ func c14ephemeral(c *an.Ctx) {
 				}
 			}
 		}
-		c.Check(left0 && eph, fn, "registration dropped only when empty and ephemeral", rc.Pos(), "", "UNREGISTER removes a whole registration (and every other producer in it) without `left == 0 && #ephemeral`")
+		c.Check(left0 && eph, fn, "registration dropped only when empty and ephemeral", rc.Pos(), "", an.FnName(fn)+" removes a whole registration (and every other producer in it) without `left == 0 && #ephemeral`")
 	}
 	// the `left` UNREGISTER relies on is truthful: len(producers of k) or, only when k has no registration, 0
 	{
